@@ -131,6 +131,7 @@ type Run struct {
 	nonNeg   map[int]bool
 	wk       *Worker
 	pbMsgs   []Value
+	makeSites map[string]map[int]*Term
 	zeroCache map[types.Type]Value
 }
 
